@@ -14,6 +14,8 @@ EXPLANATION = ('create_hashes writes only the slots of non-NULL rows of the firs
                'key hashes to whatever an earlier batch left in its slot: equal keys get different hashes (this rule found the symmetric '
                'hash join defect repaired by fix commit ba1344a). Nested kernels: each hash kernel over a nested array type with its own validity (struct, list, list view, fixed-size list, map) queries the per-row validity of the parent (a null_count() fast-path test alone does not count), so child values under a NULL parent cannot reach the hash. The rest of the hash kernels (layout independence per array encoding, '
                '-0.0/+0.0, dictionary and view handling) is value-level and not decided.')
+# path rules cut loops after a bounded number of iterations: complete over rule instances, not over all unrollings
+EXHAUSTIVE = False
 ASSUMPTIONS = ['the buffer is reachable only through the place it is named by at the call (no raw-pointer aliasing)',
                'loops are cut after one iteration; the initialisation idiom and the call are in the same iteration at every site']
 
